@@ -3,6 +3,7 @@ package sym
 import (
 	"fmt"
 	"math/big"
+	"math/rand"
 	"os"
 	"runtime/debug"
 	"sort"
@@ -113,6 +114,10 @@ type Path struct {
 	unknownFeas int
 	confine *confineState
 	cuts    int
+	rng     *rand.Rand
+	nonlinear bool
+	SA      *term.Session
+	absActive bool
 	ghost   map[string]Value
 	initPkg *ssa.Package
 	known   map[string]*term.Term // known-finding predicates registered on this path
@@ -140,6 +145,154 @@ func (p *Path) dropModel() {
 	p.memo = map[int]*big.Int{}
 }
 
+// feasTimeout bounds feasibility queries: an "unknown" keeps the path, which is
+// sound, so a short limit only costs precision.
+func (p *Path) feasTimeout() time.Duration {
+	t := p.X.FeasTimeout
+	if t == 0 || t > p.X.Timeout {
+		t = p.X.Timeout
+	}
+	return t
+}
+
+// sample looks for an assignment of the inputs satisfying the path condition
+// and extra by cheap random/extremal search with exact evaluation. It is only
+// a witness finder: failing to find one means nothing.
+func (p *Path) sample(extra ...*term.Term) (map[string]*big.Int, bool) {
+	if len(p.inputs) == 0 {
+		return nil, false
+	}
+	names := make([]string, 0, len(p.inputs))
+	for n := range p.inputs {
+		names = append(names, n)
+	}
+	sort.Strings(names)
+	if p.rng == nil {
+		p.rng = rand.New(rand.NewSource(int64(len(p.trail))*7919 + int64(p.X.Seed) + 1))
+	}
+	tries := p.X.SampleTries
+	for it := 0; it < tries; it++ {
+		env := map[string]*big.Int{}
+		for _, n := range names {
+			v := p.inputs[n]
+			if v.Op != term.OVar {
+				continue
+			}
+			var val *big.Int
+			mode := p.rng.Intn(8)
+			if it > 0 && p.hasModel && p.rng.Intn(3) != 0 {
+				if old, ok := p.env[n]; ok {
+					val = old
+				}
+			}
+			if val == nil {
+				span := new(big.Int).Sub(v.Hi, v.Lo)
+				span.Add(span, big.NewInt(1))
+				switch mode {
+				case 0:
+					val = v.Lo
+				case 1:
+					val = v.Hi
+				case 2:
+					// structured: d * 10^k
+					k := p.rng.Intn(20)
+					val = new(big.Int).Mul(big.NewInt(int64(1+p.rng.Intn(9))), term.Pow10(k))
+					val.Sub(val, big.NewInt(int64(p.rng.Intn(2))))
+				default:
+					val = new(big.Int).Rand(p.rng, span)
+					val.Add(val, v.Lo)
+				}
+				if val.Cmp(v.Lo) < 0 || val.Cmp(v.Hi) > 0 {
+					val = new(big.Int).Rand(p.rng, span)
+					val.Add(val, v.Lo)
+				}
+			}
+			env[n] = val
+		}
+		memo := map[int]*big.Int{}
+		ok := true
+		for _, e := range extra {
+			if term.Eval(e, env, nil, memo).Sign() == 0 {
+				ok = false
+				break
+			}
+		}
+		if ok {
+			for _, q := range p.pc {
+				if term.Eval(q, env, nil, memo).Sign() == 0 {
+					ok = false
+					break
+				}
+			}
+		}
+		if ok {
+			return env, true
+		}
+	}
+	return nil, false
+}
+
+// feasible decides whether PC and extra can hold together: a witness from the
+// sampler, else the solver under the feasibility timeout.
+func (p *Path) feasible(extra ...*term.Term) (term.Result, map[string]*big.Int, map[string]bool) {
+	if p.nonlinear {
+		if env, ok := p.sample(extra...); ok {
+			return term.Sat, env, map[string]bool{}
+		}
+		// linear over-approximation (products as opaque bounded constants):
+		// unsat is sound; a model is accepted only if it satisfies the exact terms
+		if p.SA != nil {
+			if !p.absActive {
+				p.SA.Reset()
+				for _, q := range p.pc {
+					p.SA.Assert(q)
+				}
+				p.absActive = true
+			}
+			r, env, benv := p.SA.CheckT(p.feasTimeout(), false, true, extra...)
+			if p.SA.Dead() {
+				p.SA.Reset()
+				p.absActive = false
+				return term.Unknown, nil, nil
+			}
+			if r == term.Unsat {
+				return term.Unsat, nil, nil
+			}
+			if r == term.Sat {
+				memo := map[int]*big.Int{}
+				ok := true
+				for _, e := range extra {
+					if term.Eval(e, env, benv, memo).Sign() == 0 {
+						ok = false
+					}
+				}
+				for _, q := range p.pc {
+					if !ok {
+						break
+					}
+					if term.Eval(q, env, benv, memo).Sign() == 0 {
+						ok = false
+					}
+				}
+				if ok {
+					return term.Sat, env, benv
+				}
+			}
+			return term.Unknown, nil, nil
+		}
+	}
+	r, e, b := p.S.CheckT(p.feasTimeout(), false, true, extra...)
+	if p.S.Dead() {
+		panic(engineErr{"solver process died (timeout watchdog or crash)"})
+	}
+	if r == term.Unknown && !p.nonlinear {
+		if env, ok := p.sample(extra...); ok {
+			return term.Sat, env, map[string]bool{}
+		}
+	}
+	return r, e, b
+}
+
 func (p *Path) check(want bool, extra ...*term.Term) (term.Result, map[string]*big.Int, map[string]bool) {
 	r, e, b := p.S.Check(want, extra...)
 	if p.S.Dead() {
@@ -154,6 +307,9 @@ func (p *Path) addPC(c *term.Term) {
 	}
 	p.pc = append(p.pc, c)
 	p.S.Assert(c)
+	if p.absActive {
+		p.SA.Assert(c)
+	}
 }
 
 // assume constrains the path; an infeasible assumption ends the path.
@@ -171,7 +327,7 @@ func (p *Path) assume(c *term.Term, why string) {
 		p.addPC(c)
 		return
 	}
-	r, env, benv := p.check(true, c)
+	r, env, benv := p.feasible(c)
 	switch r {
 	case term.Unsat:
 		panic(abortPath{"assumption infeasible: " + why})
@@ -218,7 +374,7 @@ func (p *Path) decide(c *term.Term, where string) bool {
 		}
 	}
 	if cur != 1 {
-		r, env, benv := p.check(true, c)
+		r, env, benv := p.feasible(c)
 		switch r {
 		case term.Sat:
 			canT = true
@@ -232,7 +388,7 @@ func (p *Path) decide(c *term.Term, where string) bool {
 		if cur == -1 && !canT {
 			canF = true // PC is satisfiable, so the other side must be
 		} else {
-			r, env, benv := p.check(true, nc)
+			r, env, benv := p.feasible(nc)
 			switch r {
 			case term.Sat:
 				canF = true
@@ -326,9 +482,10 @@ func (p *Path) concretizeBig(t *term.Term, where string) *big.Int {
 		return d.V
 	}
 	type cand struct {
-		v    *big.Int
-		env  map[string]*big.Int
-		benv map[string]bool
+		v       *big.Int
+		env     map[string]*big.Int
+		benv    map[string]bool
+		noModel bool
 	}
 	var cands []cand
 	var excl []*term.Term
@@ -341,16 +498,32 @@ func (p *Path) concretizeBig(t *term.Term, where string) *big.Int {
 		if len(cands) > p.X.MaxConcretize {
 			panic(engineErr{fmt.Sprintf("UNWIND: more than %d feasible values for %s at %s", p.X.MaxConcretize, t, where)})
 		}
-		r, env, benv := p.check(true, excl...)
+		r, env, benv := p.feasible(excl...)
 		if r == term.Unsat {
 			break
 		}
 		if r == term.Unknown {
-			if len(cands) == 0 {
-				panic(engineErr{"concretize: solver unknown with no candidate at " + where})
+			// fall back to enumerating the interval of t: every value not refuted stays
+			if t.Lo == nil || t.Hi == nil || new(big.Int).Sub(t.Hi, t.Lo).Cmp(big.NewInt(int64(p.X.MaxConcretize))) > 0 {
+				panic(engineErr{"UNWIND: concretize: solver unknown and the value range is not small at " + where + " for " + t.String()})
 			}
-			p.unknownFeas++
-			p.noteErr("INCONCLUSIVE concretize at " + where + ": solver unknown while enumerating values of " + t.String())
+			have := map[string]bool{}
+			for _, cd := range cands {
+				have[cd.v.String()] = true
+			}
+			for v := new(big.Int).Set(t.Lo); v.Cmp(t.Hi) <= 0; v = new(big.Int).Add(v, big.NewInt(1)) {
+				if have[v.String()] {
+					continue
+				}
+				r2, env2, benv2 := p.feasible(p.C.Eq(t, p.C.Const(v)))
+				switch r2 {
+				case term.Sat:
+					cands = append(cands, cand{v: v, env: env2, benv: benv2})
+				case term.Unknown:
+					p.unknownFeas++
+					cands = append(cands, cand{v: v, noModel: true})
+				}
+			}
 			break
 		}
 		memo := map[int]*big.Int{}
@@ -370,6 +543,8 @@ func (p *Path) concretizeBig(t *term.Term, where string) *big.Int {
 	p.ti++
 	if c0.env != nil {
 		p.setModel(c0.env, c0.benv)
+	} else if c0.noModel {
+		p.dropModel()
 	}
 	p.addPC(p.C.Eq(t, p.C.Const(c0.v)))
 	return c0.v
@@ -408,7 +583,10 @@ func (p *Path) assert(id string, c *term.Term, where string) {
 	if c.IsTrue() {
 		ob.Status, ob.Trivial = "proved", true
 	} else {
-		r, env, benv := p.check(true, p.C.Not(c))
+		r, env, benv := p.S.CheckMode(true, true, p.C.Not(c))
+		if p.S.Dead() {
+			panic(engineErr{"solver process died (timeout watchdog or crash)"})
+		}
 		switch r {
 		case term.Unsat:
 			ob.Status = "proved"
@@ -491,6 +669,8 @@ type Exec struct {
 	Contracts     map[string]bool // summaries enabled
 	initOnce      sync.Once
 	MaxPaths      int
+	FeasTimeout   time.Duration
+	SampleTries   int
 	NoMerge       bool
 	Seed          int
 	seenMu        sync.Mutex
@@ -528,6 +708,13 @@ func (x *Exec) RunJobs(jobs []*Job, nworkers int) []*JobResult {
 			}
 			defer sess.Close()
 			sess.Seed = x.Seed
+			sessA, err := term.NewSession(x.Timeout, &term.Stats{})
+			if err != nil {
+				fmt.Fprintln(os.Stderr, "cannot start solver:", err)
+				os.Exit(2)
+			}
+			sessA.AbstractMul = true
+			defer sessA.Close()
 			for {
 				mu.Lock()
 				for len(queue) == 0 && outstanding > 0 {
@@ -553,7 +740,7 @@ func (x *Exec) RunJobs(jobs []*Job, nworkers int) []*JobResult {
 					cond.Signal()
 					mu.Unlock()
 				}
-				x.runPath(it, sess, res, fork)
+				x.runPath(it, sess, sessA, res, fork)
 				res.mu.Lock()
 				res.Stats.Queries += st.Queries
 				res.Stats.Sat += st.Sat
@@ -575,9 +762,9 @@ func (x *Exec) RunJobs(jobs []*Job, nworkers int) []*JobResult {
 	return results
 }
 
-func (x *Exec) runPath(it workItem, sess *term.Session, res *JobResult, fork func(workItem)) {
+func (x *Exec) runPath(it workItem, sess, sessA *term.Session, res *JobResult, fork func(workItem)) {
 	sess.Reset()
-	p := &Path{X: x, C: term.NewCtx(), S: sess, job: it.job, res: res, trail: it.trail, fork: fork,
+	p := &Path{X: x, C: term.NewCtx(), S: sess, SA: sessA, job: it.job, res: res, trail: it.trail, fork: fork,
 		globals: map[*ssa.Global]*Object{}, inputs: map[string]*term.Term{}, ghost: map[string]Value{},
 		known: map[string]*term.Term{}, fnSeen: map[*ssa.Function]int{}}
 	res.mu.Lock()
@@ -589,7 +776,7 @@ func (x *Exec) runPath(it workItem, sess *term.Session, res *JobResult, fork fun
 	}
 	if it.env != nil {
 		p.setModel(it.env, it.benv)
-	} else {
+	} else if len(it.trail) == 0 {
 		p.setModel(nil, nil) // empty PC: any assignment is a model
 	}
 	if it.job.Confine {
